@@ -66,6 +66,23 @@ CHECKS = {
             'pysnmp module must equal the source up to whitespace.',
             'While finding D18 (unescaped texts in the pysnmp template) is open the pysnmp facet runs on the '
             'alphabet without backslashes and single-line clauses without line breaks.', '4/C15'),
+    'C16': ('exploration',
+            'Hypothesis SMIv1 module sets rendered twice (SMIv1 / mechanical SMIv2 transliteration) with a '
+            'differential oracle; exhaustive sweep of an RFC-derived (base module, symbol) import table',
+            'A: both renderings are compiled by both backends and must yield the same symbols, OIDs, kinds, node '
+            'types, access and references; SMIv1 types must become Counter32/Gauge32/IpAddress/Integer32 classes; '
+            'traps must be notifications at enterprise.0.n. B: every symbol of the SMIv1 base modules that has an '
+            'SMIv2 home (457 pairs, enumerated completely) must be imported from that home in JSON and pysnmp.',
+            'The reference table (vlib/smiv1ref.py) is my transcription of the RFCs and is the trusted base of B; '
+            'STATUS is not compared.', '4/C16'),
+    'C17': ('exploration',
+            'Hypothesis texts x pairs of buildable relaxation-option subsets (tree equality across the lattice and '
+            'with the model tree); documented breakages injected at every applicable site; thorough: all 384 subsets',
+            'For D <= D\' a legal text must parse identically under both and equal the model tree; each of the nine '
+            'options must accept its documented malformed construct at every site where it can occur and give the '
+            'tree of the corrected text; unknown option names must raise PySmiError.',
+            'Lone supportIndex is not buildable and not a case; texts avoid the words the SMIv1 keyword set '
+            'reserves.', '4/C17'),
     'C11': ('exploration',
             'exhaustive prefix enumeration of generated files + Hypothesis token mutants/noise; oracle = exception '
             'type, completeness by the renderer span table, exact line of never-viable tokens; atheris in thorough',
